@@ -525,7 +525,7 @@ def make_probed(fsic, base_cls, check=None):
             raise
         finally:
             if sink is not None:
-                sink.append(('@', 'end', hook, int(t)))
+                sink.append(('@', 'end', hook, int(t), rec['exc'] is not None))
             if -n <= t < n:
                 rec['post_endo'] = [num(d['_' + nm][t]) for nm in endo]
                 rec['post'] = [num(d['_' + nm][t]) for nm in chk]
